@@ -58,6 +58,10 @@ def check_c02(pid, tier, t0, replay_key):
     f14, o14 = e1.rule_r14(E)
     findings += f14
     obl += o14
+    import e5
+    f15, o15, _s15 = e5.rule_r15(P)
+    findings += f15
+    obl += o15
     configs = ["default"]
     if tier == "thorough":
         # second build configuration: sequential scope (no rayon) changes Workload::exec's MIR
